@@ -3,8 +3,8 @@ package props
 import (
 	"fmt"
 	"os"
-	"strconv"
 	"runtime/debug"
+	"strconv"
 	"strings"
 	"time"
 
